@@ -164,7 +164,17 @@ class Scheduler:
         if self.faults:
             k = self.opindex[tid]
             for f in self.faults:
-                if f.get('done') or f['thread'] != tid or f['op'] != k or f['step'] != n:
+                if f.get('done') or f['thread'] != tid or f['op'] != k:
+                    continue
+                fn = f.get('in_fn')
+                if fn is not None:
+                    # fault placed inside a named function (in-flight state): fires at the nth step executed there
+                    if (a.f_code.co_name if b is None else a.co_name) != fn:
+                        continue
+                    f['_seen'] = f.get('_seen', 0) + 1
+                    if f['_seen'] != f.get('nth', 1):
+                        continue
+                elif f['step'] != n:
                     continue
                 f['done'] = True
                 w = self._where(a, b)
